@@ -48,7 +48,13 @@ def observe(case, cat, edges, closed, P, ci):
         near = np.array([np.nextafter(e, np.inf if k % 2 == 0 else -np.inf) for k, e in enumerate(edges)])
         cat.build_trees(near, closed=closed)
         case["history"] = "trees built before for edges one ulp away: " + repr(near.tolist())
-    cat.build_trees(edges, closed=closed)
+    if ci % 5 == 3 and P >= 2:
+        # the build runs in worker processes (the binning travels to them through pickle): the closed side must survive the trip
+        with C.Workers(2):
+            cat.build_trees(edges, closed=closed, force=True)
+        case["history"] = case.get("history", "") + " | trees built by 2 worker processes"
+    else:
+        cat.build_trees(edges, closed=closed)
     trees_num, trees_sum = [], []
     for p in range(P):
         bt = BinnedTrees(cat[p])
